@@ -573,6 +573,10 @@ def classify_delete(before, after, expected, positions, flags, exc, matched_node
               and isinstance(loc.get("parentref"), int) and loc.get("parentref") < 0):
             out.append(("index-error-negative-index-after-list-shrank",
                         "a negative index is applied to a sequence that an earlier deletion of the same run has shortened"))
+        elif (name == "KeyError" and where.endswith(":_delete_nodes") and "merge-key" in flags
+              and {p[-1][1][4:] for p in positions if p and p[-1][0] == "k" and p[-1][1].startswith("str:")} & set(anchors)):
+            out.append(("key-named-like-merge-anchor-removes-merge-instead",
+                        "deleting a key whose name equals the anchor name of a merged (<<) map removes the merge, not the key"))
         elif name == "KeyError" and where.endswith(":_delete_nodes") and _is_set(loc.get("parent")):
             out.append(("key-error-set-member-matched-twice",
                         "a set member matched more than once is discarded twice; the second discard raises KeyError"))
@@ -740,7 +744,7 @@ COLL_ATOMS = [[("idx", 0)], [("idx", 1)], [("idx", -1)], [("key", "a")], [("key"
               [("slice", 0, 2)], [("idx", 0), ("idx", 0)], [("key", "a"), ("idx", 0)]]
 
 
-def all_paths(tier):
+def all_paths(tier, prefixes="all"):
     vocab = path_vocab(tier)
     maxlen = 2 if tier == "quick" else 3
     out = list(ROOT_PATHS)
@@ -760,7 +764,7 @@ def all_paths(tier):
     colls.append([("coll", "", [("key", "a")]), ("coll", "+", [])])
     for c in colls:
         out.append(_render_coll(c, []))
-    for pre in ([("key", "a")], [("idx", 0)], [("all",)]):
+    for pre in ([("key", "a")], [("idx", 0)], [("all",)])[:1 if prefixes == "one" else 3]:
         for c in colls[:len(COLL_ATOMS) ** 2]:
             out.append(_render_coll(c, pre))
     return list(dict.fromkeys(out))
@@ -827,7 +831,7 @@ def _chunk(groups):
 
 
 def plan(tier, seed):
-    paths2 = all_paths("quick")
+    paths2 = all_paths("quick", "one" if tier == "quick" else "all")
     groups = [(d, paths2, ["delete_nodes"]) for d in tree_docs(tier)]
     bounds = {"tree_max_nodes": 4 if tier == "quick" else 5, "tree_max_depth": 3, "tree_keys": ["a", "b"],
               "tree_scalars": [0, 1, "a"], "tree_docs": len(groups), "paths_le2_segments": len(paths2)}
@@ -847,7 +851,8 @@ def plan(tier, seed):
     n_rand = 10000 if tier == "quick" else 150000
     groups += [(d, [p], [a]) for d, p, a in random_cases(seed, n_rand, hand_paths)]
     bounds.update({"hand_docs": len(HAND_DOCS), "exhaustive_cases": n_exh, "random_cases": n_rand, "seed": seed,
-                   "collector_paths": "(x)+(y) over %d atoms, (x)+(x)+(x), (*)-(x), (/)+(a), optional 1-segment prefix" % len(COLL_ATOMS),
+                   "collector_paths": "(x)+(y) over %d atoms, (x)+(x)+(x), (*)-(x), (/)+(a); (x)+(y) also behind a 1-segment prefix (%s)"
+                                      % (len(COLL_ATOMS), "a" if tier == "quick" else "a, [0], *"),
                    "apis": "delete_nodes everywhere; delete_gathered_nodes too on the hand-written documents and the random part"})
     return groups, bounds
 
